@@ -141,6 +141,15 @@ func (v *VM[I, O, A]) verifyProcessingBlocks(ctx context.Context) error {
 			return nil
 		},
 	})
+	// A block that was rejected while it was being verified above was removed from the processing
+	// set before the subscription existed: nobody would ever resolve it.
+	v.verifiedL.Lock()
+	for _, blk := range processingBlocks {
+		if _, ok := v.verifiedBlocks[blk.ID()]; !ok {
+			unresolvedBlkCheck.Resolve(blk.ID())
+		}
+	}
+	v.verifiedL.Unlock()
 	if err := v.RegisterHealthChecker(unresolvedBlocksHealthChecker, unresolvedBlkCheck); err != nil {
 		return err
 	}
